@@ -2112,6 +2112,94 @@ func (c *Ctx) notOkViaCommandLoop(fi *fnInfo, e edge, elem ssa.Value) string {
 	return "a result that is not Ok does not end in an error"
 }
 
+// ---- RT5: a deferred function does not replace the error result ----------------------------------------------------------------------
+
+func ruleRT5(c *Ctx) *rule {
+	r := &rule{ID: "RT5", Engine: "E2+E3", Floor: 1,
+		Statement: "no deferred function literal overwrites the error result of the function that defers it: a store into the captured result is made only when the result is still nil (necessary guard on the result itself), or stores a value computed from the result it replaces (a wrap or join)",
+		Necessity: "`defer func() { err = cleanup() }()` on a named result runs after the body has set the error: a failed task, a failed command or a failed load is replaced by the outcome of the clean-up, which is nil whenever the clean-up works - the invocation then reports success"}
+	nDefer, nStore := 0, 0
+	for _, f := range c.ModFuncs {
+		for _, b := range f.Blocks {
+			for _, in := range b.Instrs {
+				d, ok := in.(*ssa.Defer)
+				if !ok {
+					continue
+				}
+				mc, ok := d.Call.Value.(*ssa.MakeClosure)
+				if !ok {
+					continue
+				}
+				cl, _ := mc.Fn.(*ssa.Function)
+				if cl == nil || len(cl.Blocks) == 0 {
+					continue
+				}
+				nDefer++
+				for i, bd := range mc.Bindings {
+					cell, isCell := bd.(*ssa.Alloc)
+					if !isCell || i >= len(cl.FreeVars) || !isErrorType(deref(cell.Type())) || !isNamedResultCell(f, cell) {
+						continue
+					}
+					fv := cl.FreeVars[i]
+					for _, cb := range cl.Blocks {
+						for _, ci := range cb.Instrs {
+							st, isSt := ci.(*ssa.Store)
+							if !isSt || st.Addr != ssa.Value(fv) {
+								continue
+							}
+							nStore++
+							key := fmt.Sprintf("%s deferred store into the error result#%d", fname(f), nStore)
+							// guarded by "the result is still nil"
+							guarded := false
+							for _, g := range c.info(cl).necessaryGuards(cb) {
+								x, nonNilWhenTrue, isTest := errNilTest(g.cond)
+								if !isTest || nonNilWhenTrue == g.pol {
+									continue
+								}
+								if u, isLoad := x.(*ssa.UnOp); isLoad && u.Op == token.MUL && u.X == ssa.Value(fv) {
+									guarded = true
+								}
+							}
+							// or computed from the result it replaces
+							derived := false
+							sl := c.newSlicer()
+							sl.depth = 0
+							for v := range sl.run(st.Val).vals {
+								if u, isLoad := v.(*ssa.UnOp); isLoad && u.Op == token.MUL && u.X == ssa.Value(fv) {
+									derived = true
+								}
+							}
+							switch {
+							case guarded:
+								r.ok(key, c.ipos(st), "only when the result is still nil")
+							case derived:
+								r.ok(key, c.ipos(st), "the new value is computed from the result it replaces")
+							default:
+								r.bad(key, c.ipos(st), "the deferred function overwrites the error result of "+fname(f)+": an error set by the body is replaced by "+condText(st.Val)+", which is nil whenever that call succeeds")
+							}
+						}
+					}
+				}
+			}
+		}
+	}
+	if nStore == 0 {
+		r.ok("deferred function literals of the module", "-", fmt.Sprintf("%d deferred function literals inspected: none stores into an error result", nDefer))
+	}
+	return r
+}
+
+// isNamedResultCell: the cell is the storage of one of f's named results (go/ssa spills a named result that a closure captures).
+func isNamedResultCell(f *ssa.Function, cell *ssa.Alloc) bool {
+	res := f.Signature.Results()
+	for i := 0; i < res.Len(); i++ {
+		if res.At(i).Name() != "" && res.At(i).Name() == cell.Comment {
+			return true
+		}
+	}
+	return false
+}
+
 func ruleRT2(c *Ctx) *rule {
 	r := &rule{ID: "RT2", Engine: "E1+E2", Floor: 5,
 		Statement: "on every call edge of the module that lies on a path main.main -> ... -> shell.Runner.Run, the callee's error result is used and its non-nil edge reaches only non-nil error returns",
@@ -2530,7 +2618,7 @@ func appProperties() []*propertySpec {
 			Explanation: "Static analysis of the whole error path: SH1 proves that the interpreter's error becomes either the returned error or Result.Status of the returned result and that the Ok() methods are Status == 0 / conjunctions over full ranges; RT1 proves that every caller of SpokFile.Run ranges over all results testing Ok() unconditionally, that the not-Ok side ends in an error naming the task and that nil is returned only after exhaustion; RT2 proves error propagation on every module call edge between main and Runner.Run; RT3 proves main reports on the real standard error and calls os.Exit with a non-zero constant on every path from the failure edge; CP8 (shared with C10) proves a digest is only recorded under Ok() of the task's own commands.",
 			NotCovered:  []string{"the exit status computed inside mvdan.cc/sh", "flag combinations rejected by the CLI library before App.Run"},
 			Assumptions: []string{"interp.IsExitStatus decodes exactly the exit-status errors of (*interp.Runner).Run", "msg.Error writes to the process's standard error; os.Exit never returns"},
-			Rules:       []func(*Ctx) *rule{ruleSH1, ruleSH2, ruleRT1, ruleRT2, ruleRT3, ruleRT4, ruleGR6, ruleCP8}},
+			Rules:       []func(*Ctx) *rule{ruleSH1, ruleSH2, ruleRT1, ruleRT2, ruleRT3, ruleRT4, ruleRT5, ruleGR6, ruleCP8}},
 		{ID: "C12", Title: "--clean removes exactly the declared outputs and the cache, never the project",
 			Explanation: "Static analysis of every os.Remove/RemoveAll call site of the module with its interprocedural entry conditions (greatest fixpoint over the call graph of the Options.*/HasTask guards): CL1 classifies every root of the removed path by backward slicing (only output fields, their Vars/Globs indirections and SpokFile.Dir + cache constants are allowed); CL2 proves each output field and the cache directory reach the removal, globs through their expansion; CL3 proves a test relating each removed path to SpokFile.Dir with an erroring side precedes the removal (at the sink or as a validate-all pass that dominates it); CL4 proves the entry conditions Clean == true and HasTask(\"clean\") == false and that the true side runs the task named \"clean\".",
 			NotCovered:  []string{"that the containment predicate itself is correct for every path string", "directories matched by output globs"},
